@@ -47,6 +47,38 @@ theorem generated_sum_one {K : Type} [Field K] [LinearOrder K] [IsStrictOrderedR
     ∃ d, Gen.normalize_importance_values vals "sum" = .ok d ∧ lsum (d.map Prod.snd) = 1 :=
   ⟨_, (normalize_generated_eq_model vals hk).2.1, C16.normalize_sum_one vals h⟩
 
+/-- before the first estimate exists the importance dictionary is empty: the generated function returns the empty dictionary in
+    both modes (fix 7374397; the zero-normaliser branch handles it because `max(…, default=0) - min(…, default=0) = 0`) -/
+theorem generated_empty :
+    Gen.normalize_importance_values ([] : Dict K) "delta" = .ok [] ∧
+    Gen.normalize_importance_values ([] : Dict K) "sum" = .ok [] := by
+  have h := normalize_generated_eq_model ([] : Dict K) (by simp [Dict.keys])
+  refine ⟨h.1.trans ?_, h.2.1.trans ?_⟩ <;> simp [normalize]
+
+/-- the code as shipped before fix 7374397 (`max(l) - min(l)` without defaults) in mode 'delta': Python's `max` of an empty
+    sequence raises, so an empty importance dictionary had NO normalised view -/
+def normalizeDeltaShipped (importance_values : Dict K) : Except String (Dict K) := do
+  let l := importance_values.map Prod.snd
+  let factor : K := (← maxE l) - (← minE l)
+  if decide (factor = (0 : K)) then
+    return importance_values.map (fun kv => (kv.1, (0 : K)))
+  return importance_values.map (fun kv => (kv.1, kv.2 / factor))
+
+theorem shipped_delta_raises_on_empty : normalizeDeltaShipped ([] : Dict K) = .error "ValueError" := by
+  simp [normalizeDeltaShipped, maxE, bind, Except.bind, throw, throwThe, MonadExceptOf.throw]
+
+/-- on a non-empty dictionary the shipped form and the repaired one agree: the repair changes nothing else -/
+theorem shipped_delta_eq_model_nonempty (vals : Dict K) (hne : vals ≠ []) :
+    normalizeDeltaShipped vals = .ok (normalize vals true) := by
+  have hl : (vals.map Prod.snd).isEmpty = false := by
+    cases vals with
+    | nil => exact absurd rfl hne
+    | cons a t => rfl
+  unfold normalizeDeltaShipped normalize
+  by_cases hf : maxL (vals.map Prod.snd) - minL (vals.map Prod.snd) = 0
+  · simp [maxE, minE, hl, hf, bind, Except.bind, pure, Except.pure]
+  · simp [maxE, minE, hl, hf, bind, Except.bind, pure, Except.pure]
+
 section Examples
 local instance : RealOps ℚ := ⟨id, id, id, id⟩
 /-- the hypotheses are satisfiable, on a concrete dict -/
